@@ -33,10 +33,16 @@ Headers == { <<22, 3, 1, 0>>,   \* TLS1.0 record version (what clients send)
              <<71, 69, 84, 32>> \* "GET " - plain HTTP on the TLS port
            }
 
+\* a first record that is not a ClientHello record, followed by a complete, valid-looking handshake record (or a prefix of it):
+\* a capture that restarts at a later read would wrongly succeed there
+NotHello == { h \in Headers : h[1] # 22 \/ h[2] # 3 \/ h[3] > 4 }
+Second == <<22, 3, 3, 0, 1, 77>>
 Streams == { <<h[1], h[2], h[3], h[4], b>> \o [i \in 1..b |-> 100 + i] \o [i \in 1..t |-> 200 + i] :
                h \in Headers, b \in 0..MaxBody, t \in 0..MaxTrail }
+           \cup { <<h[1], h[2], h[3], h[4], b>> \o [i \in 1..b |-> 100 + i] \o SubSeq(Second, 1, t) :
+               h \in NotHello, b \in 0..1, t \in 5..6 }
 
-MaxLen == 5 + MaxBody + MaxTrail
+MaxLen == 5 + MaxBody + (IF MaxTrail > 6 THEN MaxTrail ELSE 6)
 ERR == <<999>>        \* "GetClientHello returns an error" (bytes are < 256, so no clash)
 
 VARIABLES stream,       \* what the client would send
